@@ -1,3 +1,87 @@
+/-
+  C08 — non-interactive btcdeb prints the final stack and never exits abnormally.
+-/
 import Btcdeb
+import BtcdebProofs.Lemmas.NoAbnormal
+import BtcdebProofs.Lemmas.Session
+import BtcdebProofs.Properties.C04
 namespace Btcdeb.Proofs.C08
+open Btcdeb Btcdeb.Model
+
+/-- what is printed and the exit status are determined by the outcome of running to completion:
+    success prints the final stack as lowercase hex, one item per line from bottom to top, exit 0;
+    a script error is reported with its message and exit 1 -/
+theorem C08_output (cx : Ctx) (tc : TapCtx) (script : Bytes) (stack : List Bytes) (flags : Nat) (z : Bool) (e0 : IEnv)
+    (hv : hasValidOps script = true)
+    (hs : setupEnvironment stack script flags .BASE [] z {} none [] [] = .ok e0) :
+    (∀ e, continueScript cx tc (continueFuel e0) e0 = .ok e →
+        nonInteractive cx tc script stack flags z = .exit0 (e.see.stack.map toHex)) ∧
+    (∀ err, continueScript cx tc (continueFuel e0) e0 = .error (.script err) →
+        nonInteractive cx tc script stack flags z = .exit1 ("error: " ++ errString err)) ∧
+    (∀ w, continueScript cx tc (continueFuel e0) e0 = .error (.exc w) →
+        nonInteractive cx tc script stack flags z = .exit1 ("error: exception thrown: " ++ w)) := by
+  refine ⟨?_, ?_, ?_⟩ <;> intro x hx <;> simp [nonInteractive, hv, hs, hx]
+
+/-- running to completion is nothing but stepping until `done`: the result equals what interactive
+    stepping reaches after some number of steps -/
+theorem C08_same_as_stepping (cx : Ctx) (tc : TapCtx) : ∀ (fuel : Nat) (e0 e : IEnv),
+    continueScript cx tc fuel e0 = .ok e → ∃ k, C04.advance cx tc e0 k = some e := by
+  intro fuel
+  induction fuel with
+  | zero => intro e0 e h; simp only [continueScript] at h; cases h; exact ⟨0, rfl⟩
+  | succ n ih =>
+    intro e0 e h
+    simp only [continueScript] at h
+    by_cases hd : e0.done = true
+    · simp only [hd, if_true] at h; cases h; exact ⟨0, rfl⟩
+    · simp only [hd, Bool.false_eq_true, if_false] at h
+      cases hs : stepSession cx tc e0 with
+      | error x => rw [hs] at h; cases h
+      | ok e1 =>
+        rw [hs] at h
+        obtain ⟨k, hk⟩ := ih e1 e h
+        -- one more step in front
+        refine ⟨k + 1, ?_⟩
+        have key : ∀ k e, C04.advance cx tc e1 k = some e → C04.advance cx tc e0 (k + 1) = some e := by
+          intro k
+          induction k with
+          | zero => intro e h0; simp [C04.advance] at h0; simp [C04.advance, hd, hs, h0]
+          | succ k ihk =>
+            intro e h1
+            simp only [C04.advance] at h1 ⊢
+            cases hk1 : C04.advance cx tc e1 k with
+            | none => simp [hk1] at h1
+            | some em =>
+              have := ihk em hk1
+              simp only [C04.advance] at this
+              rw [this]
+              simpa [hk1] using h1
+        exact key k e hk
+
+/-- NO ABNORMAL TERMINATION from script-level failures: every operation step of a session ends in success,
+    a script error or a caught exception.  (`_partial`: stated for operation steps; the P2SH hand-over step
+    asserts a non-empty saved stack, which holds because the 23-byte template cannot succeed on an empty stack —
+    that argument is covered by the correspondence check, not by this theorem.) -/
+theorem C08_no_abnormal_partial (cx : Ctx) (hcx : CheckerNoAbn cx) (tc : TapCtx) (e : IEnv)
+    (ht : e.tce = none) (hpc : e.pc ≠ [])
+    (hw : e.see.sigversion = .TAPSCRIPT → e.see.execdata.weightInit = true) :
+    ∀ k, stepSession cx tc e ≠ .error (.abnormal k) := by
+  intro k h
+  unfold stepSession at h
+  have hne : e.pc.isEmpty = false := by simpa using hpc
+  simp only [ht, hne, Bool.not_false, if_true] at h
+  cases hs : step cx e.see e.pc with
+  | error x =>
+    rw [hs] at h
+    cases x with
+    | abnormal k' => exact step_noabn cx hcx e.see e.pc hw k' hs
+    | script _ => cases h
+    | exc _ => cases h
+  | ok r => rw [hs] at h; cases h
+
+/-- the `BaseSignatureChecker` (no transaction given) never ends abnormally -/
+theorem base_checker_noabn (cx : Ctx) (h : ∀ a b c d, cx.checkSchnorr a b c d = .error (.script .UNKNOWN_ERROR)) :
+    CheckerNoAbn cx := by
+  intro a b c d k hk; rw [h] at hk; cases hk
+
 end Btcdeb.Proofs.C08
